@@ -30,6 +30,7 @@ Variable D DX : nat -> A -> A.
 Variable ki : A.
 Variable quad : bool.
 Variable ti : cfg.
+Variable fx : bool.
 Variable hasdeg : A -> nat -> Prop.
 
 Hypothesis h_mono : forall x n m, hasdeg x n -> n <= m -> hasdeg x m.
@@ -51,7 +52,7 @@ Hypothesis h_env : forall s k id c, hasdeg (env s k id c) (cdeg ti k id c).
 Hypothesis h_wf : wf_cfg ti.
 
 Notation DEN := (@den A env D DX ki).
-Notation est := (estimate quad ti).
+Notation est := (estimate quad ti fx).
 
 Lemma hd_zero n : hasdeg k0 n.
 Proof. apply h_mono with 0; [exact h_zero | lia]. Qed.
@@ -156,7 +157,7 @@ Ltac split_and :=
          | H : _ && _ = true |- _ => apply andb_prop in H; destruct H
          end.
 
-Lemma sound_aux : forall n e, size e <= n -> poly quad ti e = true -> guard ti e = true ->
+Lemma sound_aux : forall n e, size e <= n -> poly quad ti fx e = true -> guard ti fx e = true ->
   forall s rho c, hasdeg (DEN s rho e c) (est e).
 Proof.
   induction n as [|n IH]; intros e Hs Hp Hg s rho c.
@@ -190,9 +191,9 @@ Proof.
   - (* Real *) cbn [den estimate]. apply h_re. apply IH; auto; lia.
   - (* Imag *) cbn [den estimate]. apply h_im. apply IH; auto; lia.
   - (* Indexed *) cbn [den estimate]. unfold indexed_rule.
-    match goal with H : indexed_ok _ _ _ = true |- _ => rename H into Hok end.
+    match goal with H : indexed_ok _ _ _ _ = true |- _ => rename H into Hok end.
     unfold indexed_ok in Hok.
-    destruct (indexed_walk ti e mi) as [d|] eqn:Ew.
+    destruct (indexed_walk fx ti e mi) as [d|] eqn:Ew.
     + destruct e; try discriminate Hok.
       destruct (all_fixed mi) as [cf|] eqn:Ef; [|discriminate Hok].
       apply andb_prop in Hok. destruct Hok as [_ Hle]. apply Nat.leb_le in Hle.
@@ -236,34 +237,11 @@ Proof.
 Qed.
 
 (* The main theorem (partial: guarded). *)
-Theorem C18_sound_partial : forall e, poly quad ti e = true -> guard ti e = true ->
+Theorem C18_sound_partial : forall e, poly quad ti fx e = true -> guard ti fx e = true ->
   forall s rho c, hasdeg (DEN s rho e c) (est e).
 Proof. intros e. apply (sound_aux (size e)). lia. Qed.
 
-(* identity component map => the guard holds at every Indexed node *)
-Definition ident_cfg : Prop :=
-  forall k id el, t_elem (ti k id) = Some el -> ident_elem el.
-
-Lemma indexed_ok_ident : ident_cfg ->
-  forall a mi, (forall k id sh, a = Term k id sh -> sh = t_shape (ti k id)) -> indexed_ok ti a mi = true.
-Proof.
-  intros Hid a mi Hsh. unfold indexed_ok.
-  destruct (indexed_walk ti a mi) as [d|] eqn:Ew; [|reflexivity].
-  destruct a; try discriminate Ew. unfold indexed_walk in Ew.
-  destruct (is_formarg k) eqn:Ek; [|discriminate].
-  destruct (all_fixed mi) as [cf|]; [|discriminate].
-  destruct (t_elem (ti k id)) as [el|] eqn:Eel; [|discriminate].
-  pose proof (Hsh k id sh eq_refl) as Esh. subst sh.
-  destruct (list_eq_dec Nat.eq_dec (t_shape (ti k id)) (t_shape (ti k id))) as [_|N]; [|contradiction].
-  cbn [andb]. apply Nat.leb_le.
-  destruct (e_subs el) eqn:Es; [discriminate|]. rewrite <- Es in Ew.
-  destruct (Nat.eqb (length mi) (length (t_shape (ti k id)))); [|discriminate].
-  unfold cdeg. rewrite Eel, Ek.
-  pose proof (walk_ident (e_subs el) (flatten cf (strides (t_shape (ti k id)))) 0 d (t_deg (ti k id)) Ew (Nat.le_0_l _)) as W.
-  rewrite Nat.sub_0_r in W. rewrite (Hid k id el Eel). rewrite W. lia.
-Qed.
-
-(* every Term of e carries the shape recorded for the terminal *)
+(* every Term under an Indexed carries the shape recorded for the terminal *)
 Fixpoint shapes_ok (e : expr) : bool :=
   match e with
   | Indexed (Term k id sh) _ => if list_eq_dec Nat.eq_dec sh (t_shape (ti k id)) then true else false
@@ -280,20 +258,25 @@ Fixpoint shapes_ok (e : expr) : bool :=
   | Conditional _ t f => shapes_ok t && shapes_ok f
   end.
 
-Lemma guard_ident : ident_cfg -> forall n e, size e <= n -> shapes_ok e = true -> guard ti e = true.
+(* if [indexed] is right at every node, the guard holds for every expression *)
+Section GuardFromOk.
+Hypothesis Hok : forall a mi, (forall k id sh, a = Term k id sh -> sh = t_shape (ti k id)) ->
+  indexed_ok ti fx a mi = true.
+
+Lemma guard_from_ok : forall n e, size e <= n -> shapes_ok e = true -> guard ti fx e = true.
 Proof.
-  intros Hid. induction n as [|n IH]; intros e Hs Hsh.
+  induction n as [|n IH]; intros e Hs Hsh.
   { pose proof (size_pos e). lia. }
   destruct e; cbn [guard]; cbn [size] in Hs; try reflexivity;
     try (cbn [shapes_ok] in Hsh; split_and; rewrite ?IH by (auto; lia); reflexivity).
   - (* Indexed *)
     apply andb_true_intro. split.
-    + apply indexed_ok_ident; [exact Hid|]. intros k id sh ->. cbn [shapes_ok] in Hsh.
+    + apply Hok. intros k id sh ->. cbn [shapes_ok] in Hsh.
       destruct (list_eq_dec Nat.eq_dec sh (t_shape (ti k id))); [assumption | discriminate].
     + destruct e; cbn [guard]; try reflexivity; cbn [shapes_ok] in Hsh; cbn [size] in Hs;
         try (split_and; rewrite ?IH by (auto; lia); reflexivity).
       * apply andb_true_intro. split.
-        -- apply indexed_ok_ident; [exact Hid|]. intros k id sh ->.
+        -- apply Hok. intros k id sh ->.
            destruct (list_eq_dec Nat.eq_dec sh (t_shape (ti k id))); [assumption | discriminate].
         -- apply (IH (Indexed e mi0)) in Hsh; [|cbn [size]; lia]. cbn [guard] in Hsh. split_and. assumption.
       * apply (IH (ListTensor es)); [cbn [size]; lia | exact Hsh].
@@ -301,12 +284,98 @@ Proof.
     cbn [shapes_ok] in Hsh. rewrite forallb_forall in *. intros x Hx. apply IH; auto.
     pose proof (size_list_tensor x es Hx) as Hlt. cbn [size] in Hlt. lia.
 Qed.
+End GuardFromOk.
 
-Theorem C18_sound_identity : ident_cfg -> forall e, poly quad ti e = true -> shapes_ok e = true ->
+(* the walk result dominates the owner's degree whenever the owner degrees are pointwise below the
+   concatenation of the sub-elements' reference blocks *)
+Definition dom_elem (el : elem) : bool :=
+  Nat.eqb (length (e_pdeg el)) (length (ident_pdeg (e_subs el)))
+  && forallb (fun p => Nat.leb (fst p) (snd p)) (combine (e_pdeg el) (ident_pdeg (e_subs el))).
+
+Lemma walk_lt subs : forall comp offset d, walk subs comp offset = Some d -> offset <= comp ->
+  comp - offset < length (ident_pdeg subs).
+Proof.
+  induction subs as [|[sz d0] t IH]; intros comp offset d H Hle; cbn [walk] in H; [discriminate|].
+  unfold ident_pdeg. cbn [map concat fst snd]. rewrite app_length, repeat_length.
+  destruct (Nat.ltb comp (offset + sz)) eqn:E.
+  - apply Nat.ltb_lt in E. lia.
+  - apply Nat.ltb_ge in E. specialize (IH comp (offset + sz)%nat d H E). unfold ident_pdeg in IH. lia.
+Qed.
+
+Lemma combine_le_nth : forall (l1 l2 : list nat) n d1 d2, length l1 = length l2 ->
+  forallb (fun p => Nat.leb (fst p) (snd p)) (combine l1 l2) = true -> n < length l2 ->
+  nth n l1 d1 <= nth n l2 d2.
+Proof.
+  induction l1 as [|x l1 IH]; intros l2 n d1 d2 HL HF Hn; destruct l2 as [|y l2]; cbn in HL; try discriminate.
+  - cbn in Hn. lia.
+  - cbn in HF. apply andb_prop in HF. destruct HF as [H1 H2]. apply Nat.leb_le in H1.
+    destruct n; cbn [nth]; [exact H1|]. apply IH; [lia | exact H2 | cbn in Hn; lia].
+Qed.
+
+Lemma walk_dom el comp d dflt : dom_elem el = true -> walk (e_subs el) comp 0 = Some d ->
+  nth comp (e_pdeg el) dflt <= d.
+Proof.
+  intros Hd Hw. unfold dom_elem in Hd. apply andb_prop in Hd. destruct Hd as [HL HF].
+  apply Nat.eqb_eq in HL.
+  pose proof (walk_lt _ _ _ _ Hw (Nat.le_0_l _)) as Hlt. rewrite Nat.sub_0_r in Hlt.
+  pose proof (walk_ident _ _ _ _ 0 Hw (Nat.le_0_l _)) as Hi. rewrite Nat.sub_0_r in Hi.
+  rewrite <- Hi. apply combine_le_nth; assumption.
+Qed.
+
+(* (a) elements with identity component map (any variant of [indexed]) *)
+Definition ident_cfg : Prop :=
+  forall k id el, t_elem (ti k id) = Some el -> ident_elem el.
+(* (b) the fixed variant: elements on which the fixed code still walks (non-symmetric pullback,
+   physical size = reference size) have owner degrees dominated by the reference blocks *)
+Definition fixed_cfg : Prop :=
+  forall k id el, t_elem (ti k id) = Some el -> e_sym el = false ->
+    shape_size (t_shape (ti k id)) = e_refsize el -> dom_elem el = true.
+
+Lemma ident_dom el : ident_elem el -> dom_elem el = true.
+Proof.
+  unfold ident_elem, dom_elem. intros ->. rewrite Nat.eqb_refl. cbn [andb].
+  induction (ident_pdeg (e_subs el)) as [|x l IH]; cbn; [reflexivity|]. rewrite Nat.leb_refl. exact IH.
+Qed.
+
+Lemma indexed_ok_dom :
+  (forall k id el, t_elem (ti k id) = Some el ->
+     (fx = true -> e_sym el = false /\ shape_size (t_shape (ti k id)) = e_refsize el) -> dom_elem el = true) ->
+  forall a mi, (forall k id sh, a = Term k id sh -> sh = t_shape (ti k id)) -> indexed_ok ti fx a mi = true.
+Proof.
+  intros Hdom a mi Hsh. unfold indexed_ok.
+  destruct (indexed_walk fx ti a mi) as [d|] eqn:Ew; [|reflexivity].
+  destruct a; try discriminate Ew. unfold indexed_walk in Ew.
+  destruct (is_formarg k) eqn:Ek; [|discriminate].
+  destruct (all_fixed mi) as [cf|]; [|discriminate].
+  destruct (t_elem (ti k id)) as [el|] eqn:Eel; [|discriminate].
+  pose proof (Hsh k id sh eq_refl) as Esh. subst sh.
+  destruct (list_eq_dec Nat.eq_dec (t_shape (ti k id)) (t_shape (ti k id))) as [_|N]; [|contradiction].
+  cbn [andb]. apply Nat.leb_le.
+  destruct (e_subs el) eqn:Es; [discriminate|]. rewrite <- Es in Ew.
+  destruct (Nat.eqb (length mi) (length (t_shape (ti k id))) &&
+            (negb fx || (negb (e_sym el) && Nat.eqb (shape_size (t_shape (ti k id))) (e_refsize el)))) eqn:Ec;
+    [|discriminate].
+  apply andb_prop in Ec. destruct Ec as [_ Ec].
+  unfold cdeg. rewrite Eel, Ek.
+  apply walk_dom; [|exact Ew]. apply (Hdom k id el Eel). intros ->. cbn in Ec.
+  apply andb_prop in Ec. destruct Ec as [E1 E2]. apply Nat.eqb_eq in E2.
+  split; [destruct (e_sym el); [discriminate | reflexivity] | exact E2].
+Qed.
+
+Theorem C18_sound_identity : ident_cfg -> forall e, poly quad ti fx e = true -> shapes_ok e = true ->
   forall s rho c, hasdeg (DEN s rho e c) (est e).
 Proof.
   intros Hid e Hp Hsh. apply C18_sound_partial; [exact Hp|].
-  apply (guard_ident Hid (size e)); [lia | exact Hsh].
+  apply (guard_from_ok (indexed_ok_dom (fun k id el E _ => ident_dom el (Hid k id el E))) (size e)); [lia | exact Hsh].
+Qed.
+
+(* The FULL statement for the fixed variant of [indexed]: no guard on the expression. *)
+Theorem C18_sound_fixed : fx = true -> fixed_cfg -> forall e, poly quad ti fx e = true -> shapes_ok e = true ->
+  forall s rho c, hasdeg (DEN s rho e c) (est e).
+Proof.
+  intros Hfx Hfc e Hp Hsh. apply C18_sound_partial; [exact Hp|].
+  apply (guard_from_ok (indexed_ok_dom (fun k id el E H => Hfc k id el E (proj1 (H Hfx)) (proj2 (H Hfx))))
+                       (size e)); [lia | exact Hsh].
 Qed.
 
 End Sound.
@@ -316,13 +385,14 @@ End Sound.
    element with sub-elements (P1, P3, P1) on a 2x2 tensor (symmetry (0,0)->0, (0,1),(1,0)->1,
    (1,1)->2) the estimator attributes degree 1 to the component u[1,0], which is owned by the P3
    sub-element.  (C18_poly.v turns this into a concrete polynomial field of degree 3.) *)
-Definition sym131 : elem := {| e_subs := [(1, 1); (1, 3); (1, 1)]; e_pdeg := [1; 3; 3; 1] |}.
+Definition sym131 : elem :=
+  {| e_subs := [(1, 1); (1, 3); (1, 1)]; e_pdeg := [1; 3; 3; 1]; e_sym := true; e_refsize := 3 |}.
 Definition cfg131 : cfg := mkcfg [(0, 0, {| t_deg := 3; t_shape := [2; 2]; t_elem := Some sym131 |})].
 Definition u10 : expr := Indexed (Term 0 0 [2; 2]) [Fixed 1; Fixed 0].
 
 Theorem C18_indexed_refuted :
-  exists ti e c, wf_cfg ti /\ poly false ti e = true /\
-    match e with Indexed (Term k id _) _ => estimate false ti e < cdeg ti k id c | _ => False end.
+  exists ti e c, wf_cfg ti /\ poly false ti false e = true /\
+    match e with Indexed (Term k id _) _ => estimate false ti false e < cdeg ti k id c | _ => False end.
 Proof.
   exists cfg131, u10, [1; 0]. split; [|split].
   - apply wf_list_cfg. reflexivity.
@@ -330,6 +400,11 @@ Proof.
   - vm_compute. lia.
 Qed.
 
+(* the fixed variant attributes the whole element's degree to the witness *)
+Example C18_fixed_witness : estimate false cfg131 true u10 = 3 /\ guard cfg131 true u10 = true.
+Proof. split; reflexivity. Qed.
+
 Print Assumptions C18_sound_partial.
+Print Assumptions C18_sound_fixed.
 Print Assumptions C18_sound_identity.
 Print Assumptions C18_indexed_refuted.
